@@ -165,7 +165,8 @@ def run_kani(workdir, harnesses, target, timeout, extra=(), jobs=None, harness_t
     t0 = time.time()
     import tempfile
     import threading
-    outf = tempfile.TemporaryFile(mode='w+')
+    os.makedirs(os.path.join(VERIF, 'evidence', 'kani'), exist_ok=True)
+    outf = open(os.path.join(VERIF, 'evidence', 'kani', 'live-%d.log' % os.getpid()), 'w+')
     p = subprocess.Popen(cmd, cwd=workdir, env=kani_env(target), stdout=outf, stderr=subprocess.STDOUT, text=True, start_new_session=True)
     killed = []
     stop = threading.Event()
@@ -200,6 +201,10 @@ def run_kani(workdir, harnesses, target, timeout, extra=(), jobs=None, harness_t
     outf.seek(0)
     out = outf.read()
     outf.close()
+    try:
+        os.unlink(outf.name)
+    except OSError:
+        pass
     return dict(cmd=' '.join(cmd), out=out, rc=rc, wall=time.time() - t0, timed_out=timed_out, terse=terse, mem_killed=killed)
 
 
